@@ -62,7 +62,7 @@ PIPES = OrderedDict([
 ])
 COMPILERS = list(SINGLE) + list(PIPES)
 # the compilers that have a Lean model (Core/Compile/*.lean); the others are covered by the end-to-end part only
-MODELLED = ["cer", "dcr", "sir", "btr", "qr", "grounder"]
+MODELLED = ["cer", "dcr", "sir", "btr", "qr", "grounder", "ncr"]
 
 
 def make_compiler(name):
@@ -1111,7 +1111,11 @@ def variants(payload):
             v = Q.initial_value(em.FluentExp(f, tuple(em.ObjectExp(o) for o in combo)))
             init.append([f.name, [o.name for o in combo], "undef" if v is None else upx.enc_val(v)])
     init.sort(key=sexp.dumps)
-    return ["compiled", ["variants"] + out, ["goals"] + goals, ["traj"] + traj, ["init"] + init]
+    ans = ["compiled", ["variants"] + out, ["goals"] + goals, ["traj"] + traj, ["init"] + init]
+    if comp == "ncr":
+        # NegativeConditionsRemover rewrites the quality metrics too (oversubscription goals, action costs)
+        ans.append(["metrics"] + upp.get(upp.enc_problem(Q), "metrics"))
+    return ans
 
 
 # ------------------------------------------------------------------------------------------------
